@@ -21,6 +21,8 @@ use surf_n_term::{Error, Position, SystemTerminal, Terminal, TerminalCaps, Termi
 #[derive(Debug, Clone, PartialEq)]
 pub enum Inject {
     Wake,
+    /// n waker calls in a row (from other threads, while nobody is polling)
+    WakeBurst(usize),
     Winch,
     Term,
     Input(Vec<u8>),
@@ -30,7 +32,7 @@ pub enum Inject {
 impl Inject {
     fn kind(&self) -> &'static str {
         match self {
-            Inject::Wake => "wake",
+            Inject::Wake | Inject::WakeBurst(_) => "wake",
             Inject::Winch => "winch",
             Inject::Term => "term",
             Inject::Input(_) => "input",
@@ -142,6 +144,13 @@ impl Shared {
             Inject::Wake => {
                 if let Some(w) = &self.waker {
                     let _ = w.wake();
+                }
+            }
+            Inject::WakeBurst(n) => {
+                if let Some(w) = &self.waker {
+                    for _ in 0..*n {
+                        let _ = w.wake();
+                    }
                 }
             }
             Inject::Winch => unsafe {
@@ -1345,6 +1354,46 @@ pub fn sessions_c17() -> Vec<Session> {
             stall_selects: 0,
             probe: true,
             kitty: true,
+        },
+        Session {
+            name: "flush-then-release",
+            acts: vec![Write(3), Flush, Write(2), Flush, Write(4), Poll(Some(0))],
+            allowed: vec![],
+            stall_selects: 0,
+            probe: false,
+            kitty: false,
+        },
+        Session {
+            name: "wake-burst-127",
+            acts: vec![Arrive(Inject::WakeBurst(127)), Poll(Some(5)), Poll(Some(0))],
+            allowed: vec![],
+            stall_selects: 0,
+            probe: false,
+            kitty: false,
+        },
+        Session {
+            name: "wake-burst-128",
+            acts: vec![Arrive(Inject::WakeBurst(128)), Poll(Some(5)), Poll(Some(0))],
+            allowed: vec![],
+            stall_selects: 0,
+            probe: false,
+            kitty: false,
+        },
+        Session {
+            name: "wake-burst-256",
+            acts: vec![Write(2), Arrive(Inject::WakeBurst(256)), Poll(None), Poll(Some(0))],
+            allowed: vec![],
+            stall_selects: 0,
+            probe: false,
+            kitty: false,
+        },
+        Session {
+            name: "wake-burst-1024",
+            acts: vec![Arrive(Inject::WakeBurst(200)), Arrive(Inject::WakeBurst(56)), Poll(Some(5)), Arrive(Inject::WakeBurst(64)), Poll(None)],
+            allowed: vec![],
+            stall_selects: 0,
+            probe: false,
+            kitty: false,
         },
         Session {
             name: "quit-with-pending-input",
